@@ -141,9 +141,19 @@ def dt4_big_endian_chunk_dtype():  # C14
         return "declared %s, chunk %s, equal=%s" % (ch.dtype, chunk[:].dtype, ch.dtype == chunk[:].dtype)
 
 
+def dl1_int8_digital_line():  # C11 (before fix a7d2267: OverflowError; after: [1 0 1 0])
+    from nptdms.test.test_daqmx import digital_scaler_metadata, daqmx_channel_metadata, segment_toc
+    scaler = digital_scaler_metadata(0, 1, 7)          # scale id 0, DAQmx type id 1 = Int8, line = bit 7
+    md = segment_objects_metadata(root_metadata(), group_metadata(),
+                                  daqmx_channel_metadata("Channel1", 4, [4], [scaler], digital_line_scaler=True))
+    f = GeneratedFile()
+    f.add_segment(segment_toc(), md, "80 00 00 00" "00 00 00 00" "80 00 00 00" "7F 00 00 00")
+    return f.load()["Group"]["Channel1"].raw_data
+
+
 if __name__ == "__main__":
     for fn in (td1_interleaved_complex, ts1_no_type_channel, cs1_window_overrun, ct1_file_stream_interleaved,
                nk1_timestamp_roundtrip, bl5b_string_index_length, nc1_index_only_unknown_length,
                td2_defragment_empty_timestamp, ts1_defragment_no_type, dt1_float32_linear,
-               dt4_big_endian_chunk_dtype):
+               dt4_big_endian_chunk_dtype, dl1_int8_digital_line):
         attempt(fn.__name__, fn)
